@@ -243,7 +243,7 @@ def run(ctx):
         raise AnchorMissing("one extract_time call in main")
     midp = ("field", mev0.call_term(ext[0]), "midpoint")
     # ParsedResponse.midpoint is the LE u64 of SREP.MIDP
-    pcs = W.ctor_fields("roughenough_client::ParsedResponse")
+    pcs = [c_ for c_ in W.ctor_fields("roughenough_client::ParsedResponse") if not getattr(c_[0], "derived", False)]
     if len(pcs) == 1:
         pfn, pbb, pidx, pf = pcs[0]
         mt = W.subst_fields(W.expand(pf.get("midpoint")), ("param", pfn.path, 1), hfields)
